@@ -1,0 +1,18 @@
+//go:build verif
+
+package udpip
+
+import (
+	"github.com/scionproto/scion/router"
+)
+
+// VerifInternalProcessPacket runs the internal link's own packet processing (STUN) on pkt. The
+// link must be the internal link created by this provider.
+func VerifInternalProcessPacket(l router.Link, pkt *router.Packet) error {
+	return l.(*internalLink).processPacket(pkt)
+}
+
+// VerifComputeProcID exposes computeProcID.
+func VerifComputeProcID(data []byte, numProcRoutines int, hashSeed uint32) (uint32, bool) {
+	return computeProcID(data, numProcRoutines, hashSeed)
+}
